@@ -131,6 +131,13 @@ def judge(pos, cfg, lst, form, viols, outcomes):
     if o.kind == "raise" and not o.is_proto:
         bad("non-protocol-exception", "raised %s in %s" % (o.exc_name, o.where), exc=o.exc_name)
         return True
+    if undecodable:
+        # nothing that is delivered can be "the decoded text" of a list that does not decode in the configured encoding
+        outcomes["undecodable"] = outcomes.get("undecodable", 0) + 1
+        if delivered is not None:
+            bad("undecodable-block-delivered", "the list does not decode as %s but was delivered as %r" % (
+                enc, [(h[0], h[1]) for h in delivered.headers]))
+        return True
     if validate:
         if conf is True and not undecodable:
             outcomes["conformant"] = outcomes.get("conformant", 0) + 1
@@ -166,7 +173,28 @@ def judge(pos, cfg, lst, form, viols, outcomes):
     return conf is not True
 
 
+def job_isolation(job):
+    """Several connections with DIFFERENT header_encoding values in one process, one after the other, all receiving the
+    same lists (non-ASCII names included): what one connection decoded must not influence what the next one delivers."""
+    pos = job["pos"]
+    lists = lists_for(pos, "full", 1, "d1")
+    viols, outcomes = {}, {}
+    n = nt = 0
+    for enc in job["order"]:
+        for lst in lists:
+            n += 1
+            if judge(pos, (True, True, enc), lst, "ni", viols, outcomes):
+                nt += 1
+    for v in viols.values():
+        v["sig"]["isolation_order"] = "/".join(str(e) for e in job["order"])
+        v["case"] = {"iso_job": {"iso": True, "pos": pos, "order": job["order"]}, "single": v["case"]}
+    return {"evaluations": n, "outcomes": {pos + ":iso:" + k: v for k, v in outcomes.items()}, "nontrivial": nt,
+            "violations": list(viols.values()), "samples": []}
+
+
 def job(job):
+    if job.get("iso"):
+        return job_isolation(job)
     pos, cfg, forms = job["pos"], tuple(job["cfg"]), job["forms"]
     lists = lists_for(pos, job["tokset"], job["dist"], job["part"])[job["shard"]::job["nshards"]]
     viols, outcomes = {}, {}
@@ -184,6 +212,10 @@ def job(job):
 
 def replay(rec):
     c = rec["case"]
+    if "iso_job" in c:
+        # needs the history: the same sequence of connections in one (fresh) process
+        want = rec.get("sig", {})
+        return [v for v in job_isolation(c["iso_job"])["violations"] if v["sig"] == want] or job_isolation(c["iso_job"])["violations"]
     viols, outcomes = {}, {}
     lst = tuple((bytes.fromhex(a), bytes.fromhex(b)) for a, b in c["list"])
     judge(c["pos"], tuple(c["cfg"]), lst, c["form"], viols, outcomes)
@@ -218,6 +250,9 @@ def run(ctx):
             for i in range(ns):
                 jobs.append({"pos": pos, "cfg": [True, True, None], "tokset": "shell", "dist": 3, "part": "shell3", "shard": i,
                              "nshards": ns, "forms": ["ni"]})
+    # connections with different header_encoding values sharing a process (both orders, on different positions)
+    jobs.append({"iso": True, "pos": "request", "order": ["latin-1", "utf-8", None, "latin-1"]})
+    jobs.append({"iso": True, "pos": "response", "order": ["utf-8", "latin-1", None, "utf-8"]})
     _BALLS.clear()
     ctx.fanout("c15-%s" % ctx.tier, jobs, "job", domain="%d distinct (position, configuration, list) cases" % total)
     ctx.fanouts[-1]["states"] = len(POSITIONS) * len(CFGS)
